@@ -556,6 +556,19 @@ def analyze_fn(facts, inst, model, overrides=None, ctx=None, pre=None, keep_path
     ctx.arg_frame = afr
     exits = I.run_fn(inst, fr, [st])
     I.mod.active.discard(inst["id"])
+    # the vector invariant must hold again at every exit of an entry point: for `&mut` vector arguments and for returned vectors
+    saved = ctx.record
+    ctx.record = True
+    for i in range(1, inst["argc"] + 1):
+        ty = inst["locals"][i]
+        if ty.get("k") == "ref" and ty.get("mut"):
+            for vk in I.mod.vec_keys(ty["to"], (afr, i, "pointee")):
+                for s2, _rv in exits:
+                    I.mod.check_inv(s2, vk, inst, inst.get("span"), "at exit (&mut argument)")
+    for s2, rv in exits:
+        if isinstance(rv, Fields):
+            I.mod.shape_of(s2, rv, inst["locals"][0], inst)
+    ctx.record = saved
     ctx.wall = time.time() - t0
     ctx.exits = len(exits)
     ctx.exit_states = exits
